@@ -23,6 +23,18 @@ use std::collections::BTreeMap;
 
 pub type Outputs = Vec<(String, Vec<u8>)>;
 
+/// Extended flows carry the large negative-decision blocks (every claim of a three-label batch falsified, the
+/// twelve-member hiding commit).  They are what the configuration grid and the default tape of every simulated
+/// pool execute; the single-deviation tapes re-run the CORE flow only (keys, commitments, proofs, the honest and
+/// one false decision, doubly defective proofs, structured points), whose outputs are a subset.
+static EXTENDED: std::sync::atomic::AtomicBool = std::sync::atomic::AtomicBool::new(true);
+fn extended() -> bool {
+    EXTENDED.load(std::sync::atomic::Ordering::Relaxed)
+}
+pub fn set_extended(on: bool) {
+    EXTENDED.store(on, std::sync::atomic::Ordering::Relaxed);
+}
+
 /// Phase marker for the schedule simulation (no-op in the other builds): deviations are placed at the
 /// first instances of every library loop *per phase*, so that every operation of a flow gets its own.
 #[allow(unused_variables)]
@@ -58,7 +70,7 @@ fn flow<S: Sch>(cfg: &KeyCfg, seed: u64, big: Option<S::P>) -> Result<Outputs, S
     }
     // one commit call over MANY hiding polynomials (and a few non-hiding ones in between): with a seeded RNG the
     // blinding of member k must not depend on how the call is split over threads
-    if S::HIDING {
+    if S::HIDING && extended() {
         let shapes = crate::source::shapes_short::<S>(cfg, seed);
         let mut many: Vec<LP<S>> = Vec::new();
         for k in 0..12usize {
@@ -101,7 +113,7 @@ fn flow<S: Sch>(cfg: &KeyCfg, seed: u64, big: Option<S::P>) -> Result<Outputs, S
     // every claim of a larger batch (three point labels, two of them sharing a point, all polynomials at each)
     // falsified in turn: the decisions of a verifier whose work is split by thread count or schedule must not
     // depend on either - in particular no position of a batch may go unchecked for some pool size
-    {
+    if extended() {
         let mut q3 = QuerySet::<S::Pt>::new();
         for p in c.polys.iter() {
             for (ln, z) in labels.iter() {
@@ -208,7 +220,7 @@ fn flow_special(which_full: &str, seed: u64) -> Result<Outputs, String> {
                 let d2 = kzg_batch_check(&vk, &[c, c], &[r[40], r[40]], &[p.evaluate(&r[40]), p.evaluate(&r[40]) + Fr381::one()], &[pf, pf], seed, 0);
                 out.push((format!("decisions/h={:?}", h), format!("{}/{}", d.class(), d2.class()).into_bytes()));
                 // batches of 5 and 7 openings at different points, every position falsified in turn
-                for n in [5usize, 7] {
+                for n in if extended() { vec![5usize, 7] } else { vec![] } {
                     let zs: Vec<Fr381> = (0..n).map(|i| r[41 + i]).collect();
                     let pfs: Vec<_> = zs.iter().map(|z| Kzg::open(&powers, &p, *z, &st)).collect::<Result<Vec<_>, _>>().map_err(|e| format!("{:?}", e))?;
                     let vs: Vec<Fr381> = zs.iter().map(|z| p.evaluate(z)).collect();
@@ -415,6 +427,17 @@ fn reference(item: &str, seed: u64) -> Result<BTreeMap<String, String>, String> 
     spawn_digests(&exe, item, seed, None)
 }
 
+/// like `diff`, but outputs the run did not produce (core flow) are not compared
+fn diff_core(reference: &BTreeMap<String, String>, run: &BTreeMap<String, String>) -> Vec<String> {
+    let mut d = Vec::new();
+    for (k, v) in run.iter() {
+        if reference.get(k) != Some(v) {
+            d.push(k.clone());
+        }
+    }
+    d
+}
+
 fn diff(a: &BTreeMap<String, String>, b: &BTreeMap<String, String>) -> Vec<String> {
     let mut d = Vec::new();
     for (k, v) in a.iter() {
@@ -502,10 +525,16 @@ pub fn run(rec: &mut Rec) {
         let mut want: Option<BTreeMap<String, String>> = None;
         for threads in pools.iter().copied() {
             // probe run to learn the joins (every worker does it; it is one flow)
-            let (d0, trace0, owned0, sites0, arity0) = run_tape5(item, threads, vec![], rec.seed);
+            // probe run of the CORE flow: the deviation tapes below index into its join trace
+            set_extended(false);
+            let (_dcore, trace0, owned0, sites0, arity0) = run_tape5(item, threads, vec![], rec.seed);
+            set_extended(true);
             let n = trace0.len();
             let id0 = format!("sched/{}/pool={}/default", item, threads);
             if rec.take(&id0) {
+                // the default tape runs the EXTENDED flow, twice
+                let (d0, trace0, owned0, _, _) = run_tape5(item, threads, vec![], rec.seed);
+                let n = trace0.len();
                 rec.dim("item", item);
                 rec.dim("pool", &threads.to_string());
                 if want.is_none() {
@@ -564,10 +593,12 @@ pub fn run(rec: &mut Rec) {
                 for v in 1u8..arity0[i].min(8).max(2) {
                     let mut tape = vec![0u8; i];
                     tape.push(v);
+                    set_extended(false);
                     let (d, _, _) = run_tape(item, threads, tape, rec.seed);
+                    set_extended(true);
                     rec.count_points(1);
                     rec.op(1);
-                    let df = diff(&w, &d);
+                    let df = diff_core(&w, &d);
                     rec.class(if df.is_empty() { "schedule-equal" } else { "schedule-differs" });
                     rec.obs(&format!("sched|{}|{}|{}|{}", item, threads, v, df.is_empty()));
                     if !df.is_empty() {
@@ -585,10 +616,12 @@ pub fn run(rec: &mut Rec) {
                                 let mut tape = vec![0u8; j + 1];
                                 tape[i] = v;
                                 tape[j] = u;
+                                set_extended(false);
                                 let (d, _, _) = run_tape(item, threads, tape, rec.seed);
+                                set_extended(true);
                                 rec.count_points(1);
                                 rec.op(1);
-                                let df = diff(&w, &d);
+                                let df = diff_core(&w, &d);
                                 rec.class(if df.is_empty() { "schedule-equal" } else { "schedule-differs" });
                                 if !df.is_empty() {
                                     rec.violation(&format!("C18/{}/schedule/deviation", item), &id, format!("outputs {:?} differ when joins {} and {} deviate ({}, {}) in a simulated pool of {}", df, i, j, v, u, threads));
